@@ -54,9 +54,20 @@ func c07Class(s *gen.Spec) string {
 	return "plain"
 }
 
-var c07Plain = []string{"_X", "_Y", "OCCU", "TITL", "AGE", "CAUS", "ADDR", "TYPE2", "REFN", "_V"}
+var c07Plain = []string{"_X", "_Y", "OCCU", "TITL", "AGE", "CAUS", "ADDR", "TYPE2", "REFN", "_V",
+	// tags that code tends to single out: continuation lines, facts that are
+	// "only allowed once", citations and structure tags
+	"CONC", "CONT", "RIN", "RFN", "AFN", "RESN", "EDUC", "NATI", "RELI", "PROP", "FORM", "TIME", "QUAY", "PAGE", "ROLE", "CHAN", "OBJE", "FILE", "TEXT"}
 
-func c07Tree(r *fw.Rand, maxNodes int) *gen.Spec {
+// c07Contextual: tags that cannot be created without a document or a family.
+var c07Contextual = map[string]bool{"INDI": true, "FAM": true, "HUSB": true, "WIFE": true, "CHIL": true}
+
+// c07Tree: trees for C07, C08 and C09. c07TreeWide also produces wide nodes.
+func c07Tree(r *fw.Rand, maxNodes int) *gen.Spec { return c07TreeOpt(r, maxNodes, false) }
+
+func c07TreeWide(r *fw.Rand, maxNodes int) *gen.Spec { return c07TreeOpt(r, maxNodes, true) }
+
+func c07TreeOpt(r *fw.Rand, maxNodes int, wide bool) *gen.Spec {
 	budget := maxNodes
 	var mk func(depth int) *gen.Spec
 	mk = func(depth int) *gen.Spec {
@@ -90,6 +101,13 @@ func c07Tree(r *fw.Rand, maxNodes int) *gen.Spec {
 			s.Value = []string{"M", "F", "text", "@S1@", "ABCD-123"}[r.Intn(5)]
 		default:
 			s.Tag = c07Plain[r.Intn(len(c07Plain))]
+			if r.Chance(1, 6) { // any registered tag
+				if all := gen.AllTags(); len(all) > 0 {
+					if t := all[r.Intn(len(all))]; !c07Contextual[t] {
+						s.Tag = t
+					}
+				}
+			}
 			s.Value = []string{"", "a", "b", "a", "some value", "1"}[r.Intn(6)]
 			if r.Chance(1, 10) {
 				s.Pointer = "P" + fmt.Sprint(r.Intn(3))
@@ -116,6 +134,23 @@ func c07Tree(r *fw.Rand, maxNodes int) *gen.Spec {
 	var kids []*gen.Spec
 	for len(kids) == 0 || (budget > 0 && r.Chance(1, 2)) {
 		kids = append(kids, mk(1))
+	}
+	// now and then a wide node: 16 to 40 children, among them siblings with the
+	// same line but different subtrees (lists of this size are where code
+	// switches to indexes and fast paths)
+	if wide && r.Chance(1, 25) {
+		n := r.Range(16, 40)
+		for len(kids) < n {
+			budget = 3
+			k := mk(3)
+			kids = append(kids, k)
+			if r.Chance(1, 4) {
+				tw := cloneSpec(k)
+				tw.Kids = append(tw.Kids, &gen.Spec{Tag: "_TWIN", Value: fmt.Sprint(len(kids))})
+				kids = append(kids, tw)
+			}
+		}
+		budget = 0
 	}
 	switch r.Intn(4) {
 	case 0:
@@ -444,7 +479,7 @@ const c07PinnedCases = 5
 
 func c07Run(c *fw.Ctx, i int) {
 	r := c.R
-	spec := c07Tree(r, r.Range(3, 24))
+	spec := c07TreeWide(r, r.Range(3, 24))
 	pinned, pinnedRel := c07Pinned(i)
 	if pinned != nil {
 		spec = pinned
@@ -496,6 +531,26 @@ func c07Run(c *fw.Ctx, i int) {
 	}
 	if gedcom.DeepEqual(n, cp) {
 		c.Count("deepequal-true", 1)
+	}
+	// DeepCopy may be given the document the node lives in ("This can be the
+	// same document"): the copy is still an exact, independent copy. Families
+	// are left out: copying one registers a family in the target document.
+	if spec.Tag != "FAM" {
+		c.Count("copies-into-the-own-document", 1)
+		own := gedcom.DeepCopy(n, doc)
+		if a, b := c07Text(n), c07Text(own); a != b || a != text {
+			c.Violation("copy-text:into-own-document", fmt.Sprintf("DeepCopy(node, node's own document) serialises differently:\n%s---\n%s", text, b), payload)
+		} else if !gedcom.DeepEqual(n, own) || !gedcom.DeepEqual(own, n) {
+			c.Violation("reflexive-on-copy:into-own-document", "DeepCopy(node, node's own document) is not deep-equal to its source", payload)
+		}
+		ownIDs := map[gedcom.Node]bool{}
+		c07Identity(own, ownIDs)
+		for x := range ownIDs {
+			if srcIDs[x] {
+				c.Violation("shared-node:DeepCopy:into-own-document", "a node object is reachable from both the source and its copy made into the same document: "+gen.Describe(x), payload)
+				break
+			}
+		}
 	}
 
 	// aliasing probe
